@@ -85,6 +85,9 @@ func genC15Plan(r *zsim.Rng) *sysPlan {
 			p.Args = append(p.Args, "--info", "inline-right")
 		}
 	}
+	if r.Chance(1, 5) {
+		p.Args = append(p.Args, "--no-separator")
+	}
 	if r.Chance(1, 3) {
 		p.Args = append(p.Args, "--header", c15Header)
 	}
@@ -290,9 +293,11 @@ func c15Settle(r *sysRun, busy bool) {
 		}
 		headerRows0 += minInt(plan.Header, len(loaded))
 	}
+	noSep := hasArg(plan.Args, "--no-separator")
+	oneRow := info == "inline" || noSep && (info == "hidden" || info == "inline-right") // nothing needs a row of its own next to the prompt
 	fixed0 := 2
-	if info == "inline" {
-		fixed0 = 1 // inline-right keeps the separator row below the prompt
+	if oneRow {
+		fixed0 = 1 // otherwise inline-right / hidden keep the separator row below the prompt
 	}
 	maxItems := rows - fixed0 - headerRows0
 	if maxItems <= 0 {
@@ -318,7 +323,7 @@ func c15Settle(r *sysRun, busy bool) {
 		hlShown = 0
 	}
 	fixed := 1 // prompt
-	if info != "inline" {
+	if !oneRow {
 		fixed++ // the info row; with --info=hidden the row remains and holds the separator only
 	}
 	var listRows []int // screen rows of visible result k = 0,1,2…
